@@ -4,8 +4,8 @@ reg("C03",
                   "src/hgraph/types/time_series/ts_input/target_link.cpp", "src/hgraph/types/time_series/ts_input/target_link_ops.cpp",
                   "src/hgraph/types/time_series/ts_input/base_view.cpp", "src/hgraph/types/time_series/ts_data/types.cpp",
                   "src/hgraph/runtime/graph.cpp", "src/hgraph/types/graph_wiring.cpp", "include/hgraph/runtime/node_scheduler.h"],
-    quick=dict(defs=dict(NCYC=3, NSOPS=2, DMAX=2, VARIANT_MASK=0x3f), symx=dict(shards=16, **{"max-wall": 900})),
-    thorough=dict(defs=dict(NCYC=4, NSOPS=2, DMAX=3, VARIANT_MASK=0x3f), symx=dict(shards=16, **{"max-wall": 3000, "shard-depth": 8})),
+    quick=dict(defs=dict(NCYC=3, NSOPS=1, DMAX=2, VARIANT_MASK=0x3f), symx=dict(shards=16, **{"max-wall": 900})),
+    thorough=dict(defs=dict(NCYC=4, NSOPS=2, DMAX=2, VARIANT_MASK=0x3f), symx=dict(shards=16, **{"max-wall": 3000, "shard-depth": 8})),
     reach=["end", "passive_only_tick_while_ready", "active_tick_while_required_invalid", "two_active_inputs_tick_together",
            "ran_on_own_wakeup", "wake_due_while_required_invalid", "cancelled_time_reached", "wake_only_cycle",
            "ran_with_unchecked_input_invalid", "ran_reading_older_passive_value",
